@@ -1487,6 +1487,18 @@ ASSUME_TEXT = [
 def stage_for(prop, what=("process", "setters", "reset")):
     def stage(scratch, tier, log):
         obs = run_all(scratch, what)
+        # native replay of function-level counterexamples (at most two per run)
+        from . import replay_b
+        n = 0
+        for o in obs:
+            if o.status == FAILED and o.counterexample and replay_b.replayable(o.name) and n < 2:
+                n += 1
+                try:
+                    ok, text = replay_b.replay(scratch, o)
+                except Exception as e:      # replay trouble is never an alarm by itself
+                    ok, text = False, "replay machinery error: %r" % (e,)
+                o.replayed = ok
+                o.replay_text = text
         return obs
     stage.__name__ = "tierb_async_" + prop
     return stage
